@@ -410,7 +410,7 @@ func (p *Pollard) Verify(delHashes []Hash, proof Proof, remember bool) error {
 			len(proof.Targets), len(delHashes))
 	}
 
-	_, rootCandidates, err := calculateHashes(p.NumLeaves, delHashes, proof)
+	_, rootCandidates, rootRows, err := calculateHashesAndRootRows(p.NumLeaves, delHashes, proof)
 	if err != nil {
 		return err
 	}
@@ -419,12 +419,20 @@ func (p *Pollard) Verify(delHashes []Hash, proof Proof, remember bool) error {
 			"but have %d deletions", len(delHashes))
 	}
 
+	// A root candidate only matches the root of the tree that it was
+	// calculated in.
 	rootMatches := 0
-	for i := range p.Roots {
+	rootIdx := len(p.Roots) - 1
+	for row := uint8(0); row <= TreeRows(p.NumLeaves) && rootIdx >= 0; row++ {
+		if !rootExistsOnRow(p.NumLeaves, row) {
+			continue
+		}
 		if len(rootCandidates) > rootMatches &&
-			p.Roots[len(p.Roots)-(i+1)].data == rootCandidates[rootMatches] {
+			rootRows[rootMatches] == row &&
+			p.Roots[rootIdx].data == rootCandidates[rootMatches] {
 			rootMatches++
 		}
+		rootIdx--
 	}
 	// Error out if all the rootCandidates do not have a corresponding
 	// polnode with the same hash.
@@ -548,6 +556,13 @@ func getNextPos(slice1, slice2 []uint64, slice1Idx, slice2Idx int) (uint64, int,
 // hashes of the roots and the nodes used to calculate the roots after the
 // deletion of the targets.
 func calculateHashes(numLeaves uint64, delHashes []Hash, proof Proof) (hashAndPos, []Hash, error) {
+	hnp, rootHashes, _, err := calculateHashesAndRootRows(numLeaves, delHashes, proof)
+	return hnp, rootHashes, err
+}
+
+// calculateHashesAndRootRows is calculateHashes that also returns the row of the
+// root position that each of the returned root hashes was calculated for.
+func calculateHashesAndRootRows(numLeaves uint64, delHashes []Hash, proof Proof) (hashAndPos, []Hash, []uint8, error) {
 	totalRows := TreeRows(numLeaves)
 
 	// Where all the parent hashes we've calculated in a given row will go to.
@@ -564,6 +579,7 @@ func calculateHashes(numLeaves uint64, delHashes []Hash, proof Proof) (hashAndPo
 
 	// Where all the root hashes that we've calculated will go to.
 	calculatedRootHashes := make([]Hash, 0, numRoots(numLeaves))
+	calculatedRootRows := make([]uint8, 0, numRoots(numLeaves))
 
 	// Separate index for the hashes in the passed in proof.
 	proofHashIdx := 0
@@ -577,7 +593,7 @@ func calculateHashes(numLeaves uint64, delHashes []Hash, proof Proof) (hashAndPo
 		if sibIdx == -2 {
 			// A right sibling is its own rightSib() so the same
 			// position twice must never be taken for a sibling pair.
-			return hashAndPos{}, nil, fmt.Errorf("invalid proof. Position %d "+
+			return hashAndPos{}, nil, nil, fmt.Errorf("invalid proof. Position %d "+
 				"is given or calculated more than once", provePos)
 		}
 		if idx == 0 {
@@ -598,7 +614,7 @@ func calculateHashes(numLeaves uint64, delHashes []Hash, proof Proof) (hashAndPo
 			verifPoint("calculateHashes:row-advance")
 			row++
 			if row > totalRows {
-				return hashAndPos{}, nil, fmt.Errorf("invalid proof. Position %d "+
+				return hashAndPos{}, nil, nil, fmt.Errorf("invalid proof. Position %d "+
 					"doesn't exist in a forest with %d leaves", provePos, numLeaves)
 			}
 			maxPos, _ = maxPositionAtRow(row, totalRows, numLeaves)
@@ -607,6 +623,7 @@ func calculateHashes(numLeaves uint64, delHashes []Hash, proof Proof) (hashAndPo
 		// This means we hashed all the way to the top of this subtree.
 		if isRootPositionOnRow(provePos, numLeaves, row) {
 			calculatedRootHashes = append(calculatedRootHashes, proveHash)
+			calculatedRootRows = append(calculatedRootRows, row)
 			continue
 		}
 
@@ -622,7 +639,7 @@ func calculateHashes(numLeaves uint64, delHashes []Hash, proof Proof) (hashAndPo
 			}
 		} else {
 			if len(proof.Proof) <= proofHashIdx {
-				return hashAndPos{}, nil, fmt.Errorf("invalid proof. Proof too short.")
+				return hashAndPos{}, nil, nil, fmt.Errorf("invalid proof. Proof too short.")
 			}
 
 			// If the next prove isn't the sibling of this prove, we fetch
@@ -639,7 +656,7 @@ func calculateHashes(numLeaves uint64, delHashes []Hash, proof Proof) (hashAndPo
 	// Add in the targets as well since we need them as well to calculate up
 	// to the roots.
 	nextProves = mergeSortedHashAndPos(nextProves, toProve)
-	return nextProves, calculatedRootHashes, nil
+	return nextProves, calculatedRootHashes, calculatedRootRows, nil
 }
 
 func mergeSortedSlicesFunc[E any](a, b []E, cmp func(E, E) int) (c []E) {
